@@ -333,7 +333,30 @@ class C13(Check):
                                [x for i in range(nr) for x in (str(rng.randint(1, 500)), rng.choice(["MAX_ITER", "CONVERGED"]),
                                                               hexf(-rng.random() * 10 ** rng.randint(0, 5)))] +
                                [hexf(rng.choice([0.0, 1e-4, 2.5, 59.99, 3599.9, 3600.0, 7384.2, 86400.0, 1.5e6]))]))
-        self.correspond("writers", wl, rtol=1e-5)
+        wio, _ = self.correspond("writers", wl, rtol=1e-5)
+        # what the membership writer wrote against what it was given: label, then every value to 6 significant digits
+        for line in wl:
+            t = line.split(" ")
+            if t[1] != "wmem":
+                continue
+            o = wio.get(t[0])
+            if not o:
+                continue
+            N, K = int(t[2]), int(t[3])
+            labs = t[6:6 + N]
+            vals = [unhex(x) for x in t[6 + N + 1:6 + N + 1 + N * K]]
+            self.monitor("membership files compared with the values handed to the writer")
+            for i in range(N):
+                row = o.get("l%d" % (i + 1), [])
+                want = [vals[q * N + i] for q in range(K)]
+                try:
+                    got = [unhex(x) for x in row[1:]]
+                except Exception:
+                    got = None
+                if not row or row[0] != labs[i] or got is None or len(got) != K or not all(close6(a, b) for a, b in zip(got, want)):
+                    self.violate("writer-values", "membership file row %d is %s, the matrix row is label %s and %s (6 significant digits)"
+                                 % (i, row[:1] + (got or row[1:]), labs[i], want), {"case": line, "row": i, "written": row, "values": want})
+                    break
         self.cov["rule"] = ("random command lines: all 8 flag combinations of --undirected/--assortative/--w, K 2-4, --r/--maxit/--y/--s/--o present or absent in shuffled order, "
                             "adjacency files rendered in random layouts of the grammar (indentation, tabs, trailing blanks, blank-only lines, CRLF, final newline or not, sparse labels); "
                             "the binary built from the working tree is observed through its call_start trace event and its files, compared with the model's call record and with an "
